@@ -820,7 +820,8 @@ def c14(case):
 # C15: purity across histories
 
 C15_KEYS = {"k1": "154n97w14", "k2": "155n98w01", "kerr": "XXXzXXXzXX"}
-C15_OTHER = {"o1": "T154N-R97W Sec 14: NE/4, T155N-R98W Sec 1: Lots 1 - 3", "o2": "T155N-R98W Sec 1: W/2, Sec 0: that part"}
+C15_OTHER = {"o1": "T154N-R97W Sec 14: NE/4, T155N-R98W Sec 1: Lots 1 - 3", "o2": "T155N-R98W Sec 1: W/2, Sec 0: that part",
+             "o3": "TIS4N-R97W Sec 14: NE/4, T155N-R98W Sec 1: Lots 1 - 3", "o4": "T155N-R98W Sec 1: NE NW, SW, Sec 0: SE"}
 
 
 def c15_reset():
@@ -856,6 +857,12 @@ def c15_probe(p):
                 sorted(pytrs.Tract("NE/4", "154n97w14").to_dict("trs", "twp", "rge", "sec", "sec_num", "twprge").items(), key=repr))
     if p == "find_twprge":
         return (pytrs.find_twprge("T154-R97 Sec 14, T155N-R98W", preprocess=True), pytrs.find_sec("Sec 14, T155N-R98W"))
+    if p == "plss_ocrlike":
+        d = pytrs.PLSSDesc("TI54N-R97W Sec 14: NE/4, Township lS4 North, Range 97 West Sec 15: W/2")
+        return (snap_plss(d), pytrs.find_twprge("TI54N-R97W and TlS4N-R97W", preprocess=True))
+    if p == "tract_bareqq":
+        t = pytrs.Tract("NE NW, SW of the SE, Lot 1", "154n97w14", parse_qq=True)
+        return (snap_tract(t), t.preprocess())
     if p == "trslist":
         l = pytrs.TRSList(["154n97w14", pytrs.TRS("154n97w14"), pytrs.Tract("x", "154n97w14")])
         return tuple((x.trs, x.twp_num, x.sec_num, x.twprge) for x in l) + (len(l.filter_duplicates()),)
@@ -895,8 +902,14 @@ def c15_do(op):
     elif name == "use_cache":
         pytrs.TRS._USE_CACHE = (a == "on")
     elif name == "parse_other":
-        d = pytrs.PLSSDesc(C15_OTHER[a], parse_qq=True)
+        cfg = {"o3": "ocr_scrub", "o4": "clean_qq"}.get(a)
+        d = pytrs.PLSSDesc(C15_OTHER[a], parse_qq=True, config=cfg)
         d.tracts_to_dict("trs", "twp")
+        if a == "o3":
+            d.preprocess(ocr_scrub=True)
+        if a == "o4":
+            pytrs.find_twprge("TIS5N-R9BW and T1S5N-R98W", ocr_scrub=True)
+            pytrs.Tract("NE NW of the SW", parse_qq=True, config="clean_qq").preprocess(clean_qq=True)
     elif name == "make_trs":
         pytrs.TRS(C15_KEYS[a])
         pytrs.Tract("NE/4", trs=C15_KEYS[a])
